@@ -69,6 +69,9 @@ func (g *gen) intAtom() string {
 	case 1:
 		return g.pick("g0", "g1")
 	case 2:
+		if g.c.Intn(6) == 1 {
+			return g.pick("$A", "$B", "$g0", "$C") // legacy spelling of names
+		}
 		if g.cfg.TieKeys && g.c.Intn(4) == 1 {
 			return g.pick("a", "b", "id", "Id", "url") // names that match a field only up to case
 		}
@@ -263,7 +266,7 @@ func (g *gen) stmt() {
 	case 2:
 		g.w("%s %s %s;\n", g.target(), g.pick("+=", "-=", "*="), g.intAtom())
 	case 3:
-		g.w("hv(%s, %s);\n", g.intExpr(1), g.pick("g2", "g3", "S", "g0", "\"x\""))
+		g.w("hv(%s, %s);\n", g.intExpr(1), g.pick("g2", "g3", "S", "g0", "\"x\"", "\"$A\"", "\"$g0\"", "\"A\"", "\"g0\""))
 	case 4:
 		if g.inFn || g.c.Intn(3) == 1 {
 			g.w("return %s;\n", g.intExpr(1))
